@@ -41,7 +41,7 @@ DISTINCT = ['config']
 REQUIRED = ['cmp_digest', 'cmp_midout', 'cmp_set_state', 'cmp_state_count', 'cmp_inject', 'cmp_multihash',
             'cmp_shake', 'cmp_hmac', 'cmp_hmac_outct', 'cmp_prf', 'cmp_hkdf', 'cmp_mgf1', 'cmp_hmac_drbg',
             'cmp_aesctr_drbg', 'cmp_aesctr_drbg_cross', 'cmp_oid', 'cmp_determinism', 'cmp_unmodified',
-            'adrbg_forced_update_cases', 'ref_keccak_vs_evp', 'prf_evp_checked', 'hkdf_evp_checked',
+            'adrbg_forced_update_cases', 'adrbg_partial_block_at_limit', 'ref_keccak_vs_evp', 'prf_evp_checked', 'hkdf_evp_checked',
             'cmp_multihash_inject', 'mgf1_over_256_blocks', 'outct_record_size_triples']
 
 # part -> (workers, args) per tier
@@ -57,7 +57,7 @@ QUICK = [
     ('hkdf',    4, dict(cases=9000)),
     ('mgf1',    1, dict(cases=6300)),
     ('hdrbg',   2, dict(cases=6300)),
-    ('adrbg',   4, dict(cases=4000, k=4)),
+    ('adrbg',   4, dict(cases=4000, k=24)),
     ('misc',    1, dict()),
 ]
 THOROUGH = [
